@@ -314,7 +314,14 @@ func (vc *FuncVC) setVersion(st *State, key string, t Term) {
 	c := vc.comps[key]
 	c.n++
 	name := fmt.Sprintf("%s_v%d", c.base, c.n)
-	vc.emit("(define-fun %s () %s %s)", name, c.sort, t.S)
+	if strings.HasPrefix(t.S, "(ite ") {
+		// an if-then-else version must be a constant, not a macro: macros are expanded inside quantifier
+		// patterns, where `ite` is not allowed
+		vc.emit("(declare-const %s %s)", name, c.sort)
+		vc.emit("(assert (= %s %s))", name, t.S)
+	} else {
+		vc.emit("(define-fun %s () %s %s)", name, c.sort, t.S)
+	}
 	st.ver[key] = name
 }
 
